@@ -233,3 +233,13 @@ Theorem C15_cset2_same_value :
     cget2 (cset2 c i j (cget2 c i j)) a b = cget2 c a b.
 Proof. intro O. exact (cset2_same_value (O:=O)). Qed.
 Print Assumptions C15_cset2_same_value.
+
+Theorem C15_update_order_sensitive :
+  let l0 : L3 := (60, -60, 120) in
+  let pv := map (mkvar (O:=ROps) get3 l0) [tt] in
+  let l := upd3_code (set3 l0 tt 65) in
+  upd3_code l0 = l0 /\ upd3_swapped l0 = l0 /\
+  treset (O:=ROps) set3 upd3_code pv [] l = l0 /\
+  treset (O:=ROps) set3 upd3_swapped pv [] l <> l0.
+Proof. exact update_order_sensitive. Qed.
+Print Assumptions C15_update_order_sensitive.
